@@ -300,6 +300,41 @@ def r2_1e(prog, rep):
     from . import shared
 
     shared.eq_compares_fields(prog, rep, "R2.1", IDENTITY)
+    # an identity field that is looked up in a table (`self.symbol = self.SYMBOLS[op.__name__]`) identifies the object only if
+    # the table is injective: two keys with one value make two different objects compare (and hash) equal
+    n = 0
+    for q in IDENTITY:
+        cls = prog.cls(q)
+        init, eq = cls.methods.get("__init__"), cls.methods.get("__eq__")
+        if init is None or eq is None:
+            continue
+        ef = _self_fields(eq.node)
+        for st in walk_local(init.node):
+            if not (isinstance(st, ast.Assign) and len(st.targets) == 1 and is_self_attr(st.targets[0]) and st.targets[0].attr in ef):
+                continue
+            v = st.value
+            if not (isinstance(v, ast.Subscript) and isinstance(v.value, (ast.Attribute, ast.Name))):
+                continue
+            tname = v.value.attr if isinstance(v.value, ast.Attribute) else v.value.id
+            table = cls.class_attrs.get(tname)
+            if table is None:
+                vals = cls.module.globals.get(tname) if hasattr(cls, "module") else None
+                table = vals[0] if vals and len(vals) == 1 else None
+            if not isinstance(table, ast.Dict):
+                continue
+            n += 1
+            # keys are names of functions of the `operator` module: a unary and a binary operator may share a symbol, because the
+            # operands are compared as well and their number differs
+            UNARY = {"pos", "neg", "invert", "not_", "abs", "inv", "index", "truth"}
+            def arity(k):
+                return 1 if isinstance(k, ast.Constant) and k.value in UNARY else 2
+            texts = [(unparse(x), arity(k)) for k, x in zip(table.keys, table.values)]
+            dup = sorted({t[0] for t in texts if texts.count(t) > 1})
+            keys = [unparse(k) for k, x in zip(table.keys, table.values) if unparse(x) in dup]
+            obl(rep, init, st, "R2.1", not dup, f"{cls.name}.{st.targets[0].attr} is looked up in the injective table {tname}",
+                f"{len(texts)} entries", f"the table {tname} maps {keys} to the same value {dup}: two different "
+                f"{cls.name} objects get the same `{st.targets[0].attr}`, compare equal and count as one term")
+    rep.extra["identity_tables_checked"] = n
 
 
 def _is_isinstance_of(node, name):
